@@ -94,6 +94,20 @@ def big_texts(corp, tier):
         text = ''.join(parts)
         out.append(text)                  # ends with a blank line
         out.append(text.rstrip('\n'))     # no final newline
+    # the same thresholds where character count and byte count diverge (multi-byte text): whatever sizes a buffer in one
+    # unit and slices in the other goes wrong exactly here
+    units = ['\u65e5\u672c\u8a9e\u306e\u6bb5\u843d\u3067\u3059\u3002', 'h\u00e9llo w\u00f6rld \u00e0 la cr\u00e8me ', '\U0001F600\U0001F680 emoji \U0001F4A1 ',
+             '\u0420\u0443\u0441\u0441\u043a\u0438\u0439 \u0442\u0435\u043a\u0441\u0442 ']
+    for k, n_chars in enumerate([3000, 22000, 33000, 60000, 65000, 66000] + ([130000, 400000] if tier == 'thorough' else [])):
+        unit = units[k % len(units)]
+        para = (unit * (80 // len(unit) + 1))[:80].rstrip() + '\n'
+        reps = n_chars // len(para) + 1
+        blocks = []
+        for j in range(reps):
+            blocks.append(para)
+            if j % 7 == 6:
+                blocks.append('\n')
+        out.append(('# ' + unit.strip() + '\n\n' + ''.join(blocks))[:n_chars].rstrip('\n') + '\n')
     return out
 
 
